@@ -12,9 +12,12 @@ pub mod k0 {
       relation r1(i64);
       relation r2(i64, i64, i64);
       r2(v1, v1, v1) <-- if let Some(v0) = Some(1), r0(v1, v0);
-      r2(v0, v2, v3) <-- r0(v0, v1), r0(v1, v2), r0(v2, v3);
-      r2(v0, v2, v3) <-- r0(v0, v1), r0(v1, v2), r0(v2, v3);
-      r2(v0, v1, v0) <-- r1(v0) if ((*v0) <= 3), r2(3, v1, v0);
+      r2(v0, v8, v9) <-- if let Some(v9) = Some(0), r0(v0, v1), r0(v1, v9) let v8 = ((*v0) + 1);
+      r2(v0, v1, v0) <-- r0(v0, v1), r0(v1, v1);
+      r2(1, v2, v0) <-- if let Some(v0) = Some(3), r0(v1, 2) if ((*v1) != 3) let v2 = ((*v1) + 1), if (v2 <= 6), if (v0 <= 6);
+      r2(3, v1, v1) <-- r0(v0, v1), r1(((*v1) + 0)) if ((*v0) <= 2), r1(v1);
+      r1(v2) <-- if let Some(v0) = Some(2), r2((v0 + 0), v1, v0), for v2 in 0..2, r0(((*v1) + 0), v3);
+      r2(v0, v0, v0) <-- r1(v0);
    }
    pub struct Inst { p: Prog, pool: Option<ascent::rayon::ThreadPool> }
    pub fn make(pool: Option<usize>) -> Box<dyn Driver> {
@@ -53,9 +56,12 @@ pub mod k0_gen {
       relation r1(i64);
       relation r2(i64, i64, i64);
       r2(v1, v1, v1) <-- if let Some(v0) = Some(1), r0(v1, v0);
-      r2(v0, v2, v3) <-- r0(v0, v1), r0(v1, v2), r0(v2, v3);
-      r2(v0, v2, v3) <-- r0(v0, v1), r0(v1, v2), r0(v2, v3);
-      r2(v0, v1, v0) <-- r1(v0) if ((*v0) <= 3), r2(3, v1, v0);
+      r2(v0, v8, v9) <-- if let Some(v9) = Some(0), r0(v0, v1), r0(v1, v9) let v8 = ((*v0) + 1);
+      r2(v0, v1, v0) <-- r0(v0, v1), r0(v1, v1);
+      r2(1, v2, v0) <-- if let Some(v0) = Some(3), r0(v1, 2) if ((*v1) != 3) let v2 = ((*v1) + 1), if (v2 <= 6), if (v0 <= 6);
+      r2(3, v1, v1) <-- r0(v0, v1), r1(((*v1) + 0)) if ((*v0) <= 2), r1(v1);
+      r1(v2) <-- if let Some(v0) = Some(2), r2((v0 + 0), v1, v0), for v2 in 0..2, r0(((*v1) + 0), v3);
+      r2(v0, v0, v0) <-- r1(v0);
    }
    pub struct Inst { p: Prog<String>, pool: Option<ascent::rayon::ThreadPool> }
    pub fn make(pool: Option<usize>) -> Box<dyn Driver> {
@@ -98,8 +104,8 @@ pub mod k1_mrt {
       r2(0, 3) <-- r1(2, 1);
       r3(v3, v2) <-- if let Some(v0) = None::<i64>, r2(v1, v0), if (v0 < 5), r1(v2, v3);
       r2(v0, v2) <-- r2(v0, v1), r2(v1, v2), r3(v2, v3);
-      r1(v0, v1) <-- let v9 = 2, r2(v0, v1), r1(v1, v9);
-      r3(v0, v0) <-- if let Some(v0) = Some(0), r3(v0, (v0 + 1));
+      r1(v0, v1) <-- r2(v0, v1), r1(((*v0) + 1), v2);
+      r3(v0, v0) <-- if let Some(v0) = Some(0), r3(v0, (v0 + 1)), if (v0 <= 6);
       r1(v0, v0) <-- r0(v0, 0, 1);
       r1(v3, v1) <-- for v0 in [0], r1(v1, v0), r3(v0, v2), r1(v3, v4), for v5 in [4, 2, 1];
    }
@@ -146,8 +152,8 @@ pub mod k1_inclast {
       relation r1(i64, i64);
       relation r2(i64, i64);
       relation r3(i64, i64);
-      r1(v0, v1) <-- let v9 = 2, r2(v0, v1), r1(v1, v9);
-      r3(v0, v0) <-- if let Some(v0) = Some(0), r3(v0, (v0 + 1));
+      r1(v0, v1) <-- r2(v0, v1), r1(((*v0) + 1), v2);
+      r3(v0, v0) <-- if let Some(v0) = Some(0), r3(v0, (v0 + 1)), if (v0 <= 6);
       r1(v0, v0) <-- r0(v0, 0, 1);
       r1(v3, v1) <-- for v0 in [0], r1(v1, v0), r3(v0, v2), r1(v3, v4), for v5 in [4, 2, 1];
       include_source!(k1_inclast_src);
@@ -190,7 +196,7 @@ pub mod k2_par {
       relation r2(i64, i64);
       relation r3(i64, i64);
       relation r4(i64, i64);
-      r2(v0, v1) <-- let v9 = 2, r4(v0, v1), r1(v1, v9);
+      r2(v0, v1) <-- r4(v0, v1), r1(v1, v1);
       r3(3, 0);
       r1(v0, v0) <-- r4(v0, 3), if let Some(v1) = None::<i64>, r4(v1, v2);
       r3(v2, v1) <-- if let Some(v0) = None::<i64>, r2(v1, 2), if ((*v1) != 4), r3(v2, v1) if ((*v2) != 2);
@@ -253,11 +259,9 @@ pub mod k3_run {
             relation r3(i64) = in3;
             relation r4(i64, i64, i64) = in4;
             relation r5(i64, i64) = in5;
-            r3(v0) <-- r1(v0, v1), r2(v1, v2), r5(v2, v3);
-            r5(v1, v0) <-- r0(v0, 3) if ((*v0) != 2), r0(v0, v1) if ((*v1) <= 4);
-            r2(v0, v0) <-- r1(3, 0), r4(v0, v1, v2), if let Some(v3) = Some((*v0)), r4(v4, v1, v5);
-            r5((v0 + 1), v0) <-- if let Some(v0) = None::<i64>, if (v0 < 6);
-            r2(v1, ((*v0) + 1)) <-- r1(v0, 2), r0(v1, v0), r1(v2, v3), if ((*v0) < 6);
+            r5(v0, v8) <-- if let Some(v9) = Some(3), r1(v0, v1), r2(v1, v9) let v8 = ((*v0) + 1);
+            r3(1) <-- r1(v0, 3) if ((*v0) != 2), r0(v0, v1) if ((*v1) <= 4), r0(v2, ((*v1) + 0));
+            r5(v3, v3) <-- r5(v0, v1) if ((*v1) < 6) let v2 = ((*v0) + 1), r3(v3) if (v2 <= 4);
          };
          self.out0 = res.r0.iter().cloned().collect();
          self.out1 = res.r1.iter().cloned().collect();
@@ -296,8 +300,7 @@ pub mod k3_incfirst {
    use ascent::lattice::{Dual, set::Set};
    use crate::common::*;
    ascent_source! { k3_incfirst_src:
-      r3(v0) <-- r1(v0, v1), r2(v1, v2), r5(v2, v3);
-      r5(v1, v0) <-- r0(v0, 3) if ((*v0) != 2), r0(v0, v1) if ((*v1) <= 4);
+      r5(v0, v8) <-- if let Some(v9) = Some(3), r1(v0, v1), r2(v1, v9) let v8 = ((*v0) + 1);
    }
    ascent! {
       pub struct Prog;
@@ -308,9 +311,8 @@ pub mod k3_incfirst {
       relation r4(i64, i64, i64);
       relation r5(i64, i64);
       include_source!(k3_incfirst_src);
-      r2(v0, v0) <-- r1(3, 0), r4(v0, v1, v2), if let Some(v3) = Some((*v0)), r4(v4, v1, v5);
-      r5((v0 + 1), v0) <-- if let Some(v0) = None::<i64>, if (v0 < 6);
-      r2(v1, ((*v0) + 1)) <-- r1(v0, 2), r0(v1, v0), r1(v2, v3), if ((*v0) < 6);
+      r3(1) <-- r1(v0, 3) if ((*v0) != 2), r0(v0, v1) if ((*v1) <= 4), r0(v2, ((*v1) + 0));
+      r5(v3, v3) <-- r5(v0, v1) if ((*v1) < 6) let v2 = ((*v0) + 1), r3(v3) if (v2 <= 4);
    }
    pub struct Inst { p: Prog, pool: Option<ascent::rayon::ThreadPool> }
    pub fn make(pool: Option<usize>) -> Box<dyn Driver> {
@@ -355,10 +357,10 @@ pub mod k4_grt {
       relation r4(i64);
       relation r5(i64, i64, i64);
       r2(3, 1, 1) <-- r0(0);
-      r3(v2, v1, v2) <-- if let Some(v0) = Some(2), r0(v1), if let Some(v2) = Some((*v1));
+      r3(v2, v1, v2) <-- if let Some(v0) = Some(2), r0(v1), if let Some(v2) = Some((*v1)), if (v2 <= 6);
       r4(v0) <-- r2(3, v0, 1), r3(v1, v2, v3);
-      r5(v0, v1, v9) <-- for v9 in 0..4, r1(v0, v1), r1(v9, v1);
-      r3(v0, v1, v9) <-- for v9 in 0..2, r1(v0, v1), r1(v9, v1);
+      r5(v0, v2, v3) <-- r1(v0, v1), r1(v1, v2), r1(v2, v3);
+      r3(v0, v2, v3) <-- r1(v0, v1), r1(v1, v2), r1(v2, v3);
       r5(0, ((*v0) + 1), v0) <-- r3(0, 3, v0), if ((*v0) < 6);
    }
    pub struct Inst { p: Prog, pool: Option<ascent::rayon::ThreadPool> }
@@ -403,10 +405,10 @@ pub mod k4_init {
       relation r4(i64) = vec![(1,), (4,)];
       relation r5(i64, i64, i64) = vec![(0,0,0,), (2,2,3,), (4,3,3,)];
       r2(3, 1, 1) <-- r0(0);
-      r3(v2, v1, v2) <-- if let Some(v0) = Some(2), r0(v1), if let Some(v2) = Some((*v1));
+      r3(v2, v1, v2) <-- if let Some(v0) = Some(2), r0(v1), if let Some(v2) = Some((*v1)), if (v2 <= 6);
       r4(v0) <-- r2(3, v0, 1), r3(v1, v2, v3);
-      r5(v0, v1, v9) <-- for v9 in 0..4, r1(v0, v1), r1(v9, v1);
-      r3(v0, v1, v9) <-- for v9 in 0..2, r1(v0, v1), r1(v9, v1);
+      r5(v0, v2, v3) <-- r1(v0, v1), r1(v1, v2), r1(v2, v3);
+      r3(v0, v2, v3) <-- r1(v0, v1), r1(v1, v2), r1(v2, v3);
       r5(0, ((*v0) + 1), v0) <-- r3(0, 3, v0), if ((*v0) < 6);
    }
    pub struct Inst { p: Prog, pool: Option<ascent::rayon::ThreadPool> }
@@ -451,7 +453,7 @@ pub mod k5_redecl {
       r1(v0, v0) <-- r0(v0);
       r1(((*v1) + 1), v1) <-- r1(v0, 1), r1(v1, v0), if ((*v1) < 6);
       r2(v0) <-- if let Some(v9) = Some(0), r1(v0, v1), r1(v1, v9) let v8 = ((*v0) + 1);
-      r1(v0, v0) <-- if let Some(v0) = Some(0);
+      r1(v0, v0) <-- if let Some(v0) = Some(0), if (v0 <= 6);
       r2(v1) <-- r0(v0), for v1 in 0..1;
       r2(0);
       r1(v0, v1) <-- r2(v0), r0(v0), for v1 in [4, 4];
@@ -493,6 +495,8 @@ pub mod k6_runpar {
       pub in2: Vec<(i64,i64,)>, pub out2: Vec<(i64,i64,)>,
       pub in3: Vec<(i64,i64,)>, pub out3: Vec<(i64,i64,)>,
       pub in4: Vec<(i64,i64,)>, pub out4: Vec<(i64,i64,)>,
+      pub in5: Vec<(i64,)>, pub out5: Vec<(i64,)>,
+      pub in6: Vec<(i64,)>, pub out6: Vec<(i64,)>,
    }
    pub fn make(_pool: Option<usize>) -> Box<dyn Driver> { Box::new(Inst::default()) }
    impl Inst {
@@ -502,6 +506,8 @@ pub mod k6_runpar {
          let in2 = self.in2.clone();
          let in3 = self.in3.clone();
          let in4 = self.in4.clone();
+         let in5 = self.in5.clone();
+         let in6 = self.in6.clone();
          let res = ascent_run_par! {
             struct Prog;
             relation r0(i64) = in0.into_iter().collect();
@@ -509,19 +515,24 @@ pub mod k6_runpar {
             relation r2(i64, i64) = in2.into_iter().collect();
             relation r3(i64, i64) = in3.into_iter().collect();
             relation r4(i64, i64) = in4.into_iter().collect();
-            r1(v0, v1) <-- r2(v0, v1) if ((*v0) < 2), r1(v1, v2) if ((*v2) != (*v1));
-            r2(v0, v2) <-- r1(v0, v1), r1(v1, v2), r2(v2, v3);
-            r2(v0, v1) <-- r1(v0, v1);
-            r2(v2, v1) <-- r1(v0, v1) if ((*v0) <= 2) let v2 = ((*v0) + 1);
-            r2(v0, (v0 + 1)) <-- if let Some(v0) = Some(0), r2((v0 + 1), v0), if (v0 < 6);
-            r3(v1, 0) <-- r1(v0, v1), agg () = not() in r0(_);
-            r4(v0, v21) <-- r0(v0), agg v21 = sum(v20) in r3((*v0), v20);
+            relation r5(i64) = in5.into_iter().collect();
+            relation r6(i64) = in6.into_iter().collect();
+            r1(v0, v1) <-- r2(v0, v1), r1(((*v0) + 1), v2);
+            r1(v0, v1) <-- r1(v0, v1), r1(v1, v1);
+            r1(v0, v0) <-- r0(v0) if ((*v0) < 5);
+            r2(v2, v0) <-- if let Some(v0) = Some(1), r2((v0 + 1), (v0 + 1)) if (v0 <= 5), r1(v1, v2), if (v0 <= 6);
+            r3(v0, v21) <-- r0(v0), agg v21 = min(v20) in r1((*v0), v20);
+            r4(v0, v21) <-- r2(v0, v1), r0(v0), r0(v32), agg v21 = max(v20) in r3((*v32), v20);
+            r5(v1) <-- r1(v0, v1), r1(v1, v0), r0(v1), agg v21 = sum(v20) in r1((*v1), v20);
+            r6(v0) <-- r0(v0), r2(v31, v31), agg () = not() in r3((*v31), (*v0));
          };
          self.out0 = res.r0.iter().cloned().collect();
          self.out1 = res.r1.iter().cloned().collect();
          self.out2 = res.r2.iter().cloned().collect();
          self.out3 = res.r3.iter().cloned().collect();
          self.out4 = res.r4.iter().cloned().collect();
+         self.out5 = res.r5.iter().cloned().collect();
+         self.out6 = res.r6.iter().cloned().collect();
       }
    }
 
@@ -533,6 +544,8 @@ pub mod k6_runpar {
             2 => { let v: Vec<(i64,i64,)> = parse_rows(rows)?; if append { self.in2.extend(v) } else { self.in2 = v } },
             3 => { let v: Vec<(i64,i64,)> = parse_rows(rows)?; if append { self.in3.extend(v) } else { self.in3 = v } },
             4 => { let v: Vec<(i64,i64,)> = parse_rows(rows)?; if append { self.in4.extend(v) } else { self.in4 = v } },
+            5 => { let v: Vec<(i64,)> = parse_rows(rows)?; if append { self.in5.extend(v) } else { self.in5 = v } },
+            6 => { let v: Vec<(i64,)> = parse_rows(rows)?; if append { self.in6.extend(v) } else { self.in6 = v } },
             _ => return None,
          }
          Some(())
@@ -540,7 +553,7 @@ pub mod k6_runpar {
       fn run(&mut self) { self.go() }
       fn run_here(&mut self) { self.go() }
       fn run_timeout(&mut self, _k: usize) -> Option<bool> { None }
-      fn dump(&self) -> String { vec![dump_rel(0, self.out0.iter().map(Row::render).collect()), dump_rel(1, self.out1.iter().map(Row::render).collect()), dump_rel(2, self.out2.iter().map(Row::render).collect()), dump_rel(3, self.out3.iter().map(Row::render).collect()), dump_rel(4, self.out4.iter().map(Row::render).collect())].join(" | ") }
+      fn dump(&self) -> String { vec![dump_rel(0, self.out0.iter().map(Row::render).collect()), dump_rel(1, self.out1.iter().map(Row::render).collect()), dump_rel(2, self.out2.iter().map(Row::render).collect()), dump_rel(3, self.out3.iter().map(Row::render).collect()), dump_rel(4, self.out4.iter().map(Row::render).collect()), dump_rel(5, self.out5.iter().map(Row::render).collect()), dump_rel(6, self.out6.iter().map(Row::render).collect())].join(" | ") }
       fn iters(&self) -> String { "iters".into() }
    }
 }
@@ -552,9 +565,10 @@ pub mod k6_incmiddle {
    use ascent::lattice::{Dual, set::Set};
    use crate::common::*;
    ascent_source! { k6_incmiddle_src:
-      r1(v0, v1) <-- r2(v0, v1) if ((*v0) < 2), r1(v1, v2) if ((*v2) != (*v1));
-      r2(v0, v2) <-- r1(v0, v1), r1(v1, v2), r2(v2, v3);
-      r2(v0, v1) <-- r1(v0, v1);
+      r1(v0, v1) <-- r2(v0, v1), r1(((*v0) + 1), v2);
+      r1(v0, v1) <-- r1(v0, v1), r1(v1, v1);
+      r1(v0, v0) <-- r0(v0) if ((*v0) < 5);
+      r2(v2, v0) <-- if let Some(v0) = Some(1), r2((v0 + 1), (v0 + 1)) if (v0 <= 5), r1(v1, v2), if (v0 <= 6);
    }
    ascent! {
       pub struct Prog;
@@ -563,11 +577,13 @@ pub mod k6_incmiddle {
       relation r2(i64, i64);
       relation r3(i64, i64);
       relation r4(i64, i64);
-      r2(v2, v1) <-- r1(v0, v1) if ((*v0) <= 2) let v2 = ((*v0) + 1);
-      r2(v0, (v0 + 1)) <-- if let Some(v0) = Some(0), r2((v0 + 1), v0), if (v0 < 6);
+      relation r5(i64);
+      relation r6(i64);
+      r3(v0, v21) <-- r0(v0), agg v21 = min(v20) in r1((*v0), v20);
+      r4(v0, v21) <-- r2(v0, v1), r0(v0), r0(v32), agg v21 = max(v20) in r3((*v32), v20);
       include_source!(k6_incmiddle_src);
-      r3(v1, 0) <-- r1(v0, v1), agg () = not() in r0(_);
-      r4(v0, v21) <-- r0(v0), agg v21 = sum(v20) in r3((*v0), v20);
+      r5(v1) <-- r1(v0, v1), r1(v1, v0), r0(v1), agg v21 = sum(v20) in r1((*v1), v20);
+      r6(v0) <-- r0(v0), r2(v31, v31), agg () = not() in r3((*v31), (*v0));
    }
    pub struct Inst { p: Prog, pool: Option<ascent::rayon::ThreadPool> }
    pub fn make(pool: Option<usize>) -> Box<dyn Driver> {
@@ -583,6 +599,8 @@ pub mod k6_incmiddle {
          2 => { let v: Vec<(i64,i64,)> = parse_rows(rows)?; if append { self.p.r2.extend(v) } else { self.p.r2 = v } },
          3 => { let v: Vec<(i64,i64,)> = parse_rows(rows)?; if append { self.p.r3.extend(v) } else { self.p.r3 = v } },
          4 => { let v: Vec<(i64,i64,)> = parse_rows(rows)?; if append { self.p.r4.extend(v) } else { self.p.r4 = v } },
+         5 => { let v: Vec<(i64,)> = parse_rows(rows)?; if append { self.p.r5.extend(v) } else { self.p.r5 = v } },
+         6 => { let v: Vec<(i64,)> = parse_rows(rows)?; if append { self.p.r6.extend(v) } else { self.p.r6 = v } },
             _ => return None,
          }
          Some(())
@@ -590,7 +608,7 @@ pub mod k6_incmiddle {
       fn run(&mut self) { match &self.pool { Some(pl) => { let p = &mut self.p; pl.install(|| p.run()) }, None => self.p.run() } }
       fn run_here(&mut self) { self.p.run() }
       fn run_timeout(&mut self, k: usize) -> Option<bool> { let _ = k; None }
-      fn dump(&self) -> String { vec![dump_rel(0, self.p.r0.iter().map(Row::render).collect()), dump_rel(1, self.p.r1.iter().map(Row::render).collect()), dump_rel(2, self.p.r2.iter().map(Row::render).collect()), dump_rel(3, self.p.r3.iter().map(Row::render).collect()), dump_rel(4, self.p.r4.iter().map(Row::render).collect())].join(" | ") }
+      fn dump(&self) -> String { vec![dump_rel(0, self.p.r0.iter().map(Row::render).collect()), dump_rel(1, self.p.r1.iter().map(Row::render).collect()), dump_rel(2, self.p.r2.iter().map(Row::render).collect()), dump_rel(3, self.p.r3.iter().map(Row::render).collect()), dump_rel(4, self.p.r4.iter().map(Row::render).collect()), dump_rel(5, self.p.r5.iter().map(Row::render).collect()), dump_rel(6, self.p.r6.iter().map(Row::render).collect())].join(" | ") }
       fn iters(&self) -> String { format!("iters {}", self.p.scc_iters.iter().map(|x| x.to_string()).collect::<Vec<_>>().join(" ")) }
    }
 }
@@ -612,15 +630,17 @@ pub mod k7_both {
       relation r4(i64, i64, i64);
       relation r5(i64);
       relation r6(i64);
+      relation r7(i64);
       r3(1, 3) <-- r1(2);
-      r3(v0, v1) <-- r3(1, 2), if let Some(v0) = Some(1), r3(v0, v1);
-      r2(v0) <-- r3(v0, v1) if ((*v0) < 3), r3(v1, v2) if ((*v2) != (*v1));
-      r4(v0, 0, v0) <-- let v0 = 4, r2((v0 + 1)) if (v0 < 3);
-      r2(v0) <-- r0(v0);
-      r3(v0, 3) <-- for v0 in 0..4, r3(v0, v1), r2(2) if ((*v1) <= 3), r0(3);
-      r3(v0, v0) <-- r0(v0), r1(v1);
-      r5(v32) <-- r0(v0), r3(v0, v0), r3(v31, v32), agg v21 = min(v20) in r3(_, v20);
+      r3(v0, v1) <-- r3(1, 2), if let Some(v0) = Some(1), r3(v0, v1), if (v0 <= 6);
+      r4(v0, v1, v9) <-- let v9 = 1, r3(v0, v1), r3(v1, v9);
+      r2(v1) <-- let v0 = 4, r2((v0 + 1)) if (v0 < 3), r2(v1) if (v0 <= 5);
+      r2(1) <-- r4(v0, v1, v2), r1(v3);
+      r2(v1) <-- if let Some(v0) = Some(1), r0(v1), for v2 in 2..4, r0(v3) if (v0 < 2) let v4 = ((*v3) + 1);
+      r3(1, (v1 + 1)) <-- r2(v0) if ((*v0) < 6) let v1 = ((*v0) + 1), if (v1 < 6);
+      r5(v0) <-- r3(v0, v1), agg v21 = max(v20) in r3(v20, _);
       r6(v0) <-- r0(v0), agg () = not() in r3((*v0), (*v0));
+      r7(v0) <-- r3(v0, v1), agg v21 = min(v20) in r0(v20);
    }
    pub struct Inst { p: Prog, pool: Option<ascent::rayon::ThreadPool> }
    pub fn make(pool: Option<usize>) -> Box<dyn Driver> {
@@ -638,6 +658,7 @@ pub mod k7_both {
          4 => { let v: Vec<(i64,i64,i64,)> = parse_rows(rows)?; if append { self.p.r4.extend(v) } else { self.p.r4 = v } },
          5 => { let v: Vec<(i64,)> = parse_rows(rows)?; if append { self.p.r5.extend(v) } else { self.p.r5 = v } },
          6 => { let v: Vec<(i64,)> = parse_rows(rows)?; if append { self.p.r6.extend(v) } else { self.p.r6 = v } },
+         7 => { let v: Vec<(i64,)> = parse_rows(rows)?; if append { self.p.r7.extend(v) } else { self.p.r7 = v } },
             _ => return None,
          }
          Some(())
@@ -645,7 +666,7 @@ pub mod k7_both {
       fn run(&mut self) { match &self.pool { Some(pl) => { let p = &mut self.p; pl.install(|| p.run()) }, None => self.p.run() } }
       fn run_here(&mut self) { self.p.run() }
       fn run_timeout(&mut self, k: usize) -> Option<bool> { ascent::internal::verif::arm_deadline(k); let r = self.p.run_timeout(std::time::Duration::from_secs(1)); ascent::internal::verif::disarm(); Some(r) }
-      fn dump(&self) -> String { vec![dump_rel(0, self.p.r0.iter().map(Row::render).collect()), dump_rel(1, self.p.r1.iter().map(Row::render).collect()), dump_rel(2, self.p.r2.iter().map(Row::render).collect()), dump_rel(3, self.p.r3.iter().map(Row::render).collect()), dump_rel(4, self.p.r4.iter().map(Row::render).collect()), dump_rel(5, self.p.r5.iter().map(Row::render).collect()), dump_rel(6, self.p.r6.iter().map(Row::render).collect())].join(" | ") }
+      fn dump(&self) -> String { vec![dump_rel(0, self.p.r0.iter().map(Row::render).collect()), dump_rel(1, self.p.r1.iter().map(Row::render).collect()), dump_rel(2, self.p.r2.iter().map(Row::render).collect()), dump_rel(3, self.p.r3.iter().map(Row::render).collect()), dump_rel(4, self.p.r4.iter().map(Row::render).collect()), dump_rel(5, self.p.r5.iter().map(Row::render).collect()), dump_rel(6, self.p.r6.iter().map(Row::render).collect()), dump_rel(7, self.p.r7.iter().map(Row::render).collect())].join(" | ") }
       fn iters(&self) -> String { format!("iters {}", self.p.scc_iters.iter().map(|x| x.to_string()).collect::<Vec<_>>().join(" ")) }
    }
 }
